@@ -108,3 +108,34 @@ Theorem C16_task_eval_spec : forall EV flat t t', task_eval EV flat t = Ok t' ->
   t_build t' = t_build t /\ t_required_vars t' = t_required_vars t /\ t_required_modules t' = t_required_modules t.
 Proof. exact task_eval_spec. Qed.
 Print Assumptions C16_task_eval_spec.
+
+(* WHICH declaration of a task name a build offers (proofs/TaskNearest.v). collect_tasks inserts, for the contexts of
+   the builder's chain from the root down to the builder, the context's tasks and then the tasks of all selected
+   modules; the LAST declaration of a name in that sequence decides — with its command, its requirements and its
+   build: flag: *)
+Require Import Laze.proofs.TaskNearest.
+Theorem C16_last_declaration_wins : forall EV b builder flat ms tasks n,
+  collect_tasks EV b builder flat ms = Ok tasks ->
+  match decl_of n (task_seq (ctxs_of b (parents_root_first b builder)) ms) with
+  | Some nt => exists r, task_result EV flat ms (snd nt) = Ok r /\ alookup n tasks = Some r
+  | None => alookup n tasks = None
+  end.
+Proof. exact collect_tasks_last_wins. Qed.
+Print Assumptions C16_last_declaration_wins.
+
+(* ... so, when no selected module declares the name, the context NEAREST to the builder that declares it decides
+   (contexts further up — `pre` — do not matter), *)
+Theorem C16_nearest_context_wins : forall (pre post : list context) (c : context) ms n,
+  declares n (flat_map m_tasks ms) = false ->
+  (forall c', In c' post -> declares n (odflt [] (c_tasks c')) = false) ->
+  declares n (odflt [] (c_tasks c)) = true ->
+  decl_of n (task_seq (pre ++ c :: post) ms) = decl_of n (odflt [] (c_tasks c)).
+Proof. exact nearest_context_wins. Qed.
+Print Assumptions C16_nearest_context_wins.
+
+(* ... and a selected module's declaration beats every context's. *)
+Theorem C16_module_task_beats_contexts : forall (pre : list context) (c : context) ms n,
+  declares n (flat_map m_tasks ms) = true ->
+  decl_of n (task_seq (pre ++ [c]) ms) = decl_of n (flat_map m_tasks ms).
+Proof. exact module_task_beats_contexts. Qed.
+Print Assumptions C16_module_task_beats_contexts.
